@@ -38,7 +38,7 @@ ANCHORS = [
     "acnportal.acnsim.interface:Interface.allowable_pilot_signals",
 ]
 REQUIRED = ["set_pilot_judged", "accepted", "rejected", "regime:EVSE", "regime:DeadbandEVSE", "regime:FiniteRatesEVSE",
-            "rejected_with_ev_state_checked", "non_finite_pilots_judged", "pilots_of_magnitude_over_1e5_judged", "pilot_equals_current", "pilot_exact_zero", "pilot_repeated", "replug_between_pilots",
+            "rejected_with_ev_state_checked", "advert_with_session_ids_spelled_like_other_stations", "non_finite_pilots_judged", "pilots_of_magnitude_over_1e5_judged", "pilot_equals_current", "pilot_exact_zero", "pilot_repeated", "replug_between_pilots",
             "advertised_values_applied", "suite:set_pilot_judged", "advertised_after_json", "plugin_occupied_refused", "plugin_occupied_same_session_id_refused"]
 BUDGET_S = {"quick": 200, "thorough": 2400}
 OFFS = [0, 1e-6, 5e-4, 9.99e-4, 1.001e-3, 2e-3, 0.5, 3]
@@ -303,6 +303,19 @@ def _run_advert(case, obs):
     with warnings.catch_warnings():
         warnings.simplefilter("ignore")
         net2 = ChargingNetwork.from_json(net.to_json())
+    if n >= 2 and rng.random() < 0.5:
+        # cars are connected whose session ids are spelled like OTHER stations' ids (ids share one namespace at real sites):
+        # what the interface advertises for a station is that station's, whoever is plugged in elsewhere
+        from acnportal.acnsim.models import EV, Battery
+        ids_ = [s_["id"] for s_ in stations]
+        perm_ = ids_[1:] + ids_[:1]
+        for st_id, sess_id in zip(ids_, perm_):
+            if rng.random() < 0.7:
+                net.plugin(EV(0, 10, 5.0, st_id, sess_id, Battery(50, 0, 7)))
+        obs.ev("advert_with_session_ids_spelled_like_other_stations")
+        with warnings.catch_warnings():
+            warnings.simplefilter("ignore")
+            net2 = ChargingNetwork.from_json(net.to_json())
     for tag, nw in (("network", net), ("network-after-json", net2)):
         sim = Simulator(nw, UncontrolledCharging(), EventQueue(), datetime(2020, 1, 1), verbose=False)
         iface = Interface(sim)
